@@ -81,6 +81,12 @@ func genBig(t *rapid.T) *Case {
 }
 
 func genCase(t *rapid.T) *Case {
+	c := genCase1(t)
+	c.InPlace = rapid.IntRange(0, 3).Draw(t, "inplace") == 0
+	return c
+}
+
+func genCase1(t *rapid.T) *Case {
 	switch rapid.IntRange(0, 19).Draw(t, "nameset") {
 	case 0:
 		return genBig(t)
